@@ -93,6 +93,9 @@ type PathResult struct {
 	Incon     []string // inconclusive asserts (solver unknown)
 	Reached   []string
 	Params    map[string]int
+	Races     []string
+	RacePairs int
+	RaceQ     int
 }
 
 // Path is the state of the path being executed.
@@ -130,6 +133,11 @@ type Path struct {
 	memo       map[*Term]*Term
 	modelHits  int
 	params     map[string]int
+	tm          *threadModel
+	races       []string
+	raceN       int
+	racePairs   int
+	raceQueries int
 	zones      []string
 	zonePtr    []*value
 	zoneOf     map[*value]int
